@@ -513,6 +513,52 @@ impl Mutation {
 }
 
 impl World {
+    /// Is the entry `rel` (world-relative, may lead through symlinks the
+    /// attacker planted earlier) located under the root directory *now*?
+    /// Decided by walking ".." from the entry's real parent directory up to
+    /// the root inode - not lexically, and independent of the root's name.
+    pub fn under_root_now(&self, rel: &str) -> bool {
+        let parent = match rel.rfind('/') {
+            Some(i) => &rel[..i],
+            None => "",
+        };
+        let mut fd = match sys::open(&abs(parent), libc::O_PATH | libc::O_DIRECTORY, 0) {
+            Ok(fd) => fd,
+            Err(_) => return false,
+        };
+        let mut inside = false;
+        for _ in 0..64 {
+            let st = match sys::fstat(fd) {
+                Ok(s) => s,
+                Err(_) => break,
+            };
+            if (st.st_dev, st.st_ino) == self.root_ino {
+                inside = true;
+                break;
+            }
+            let up = match sys::openat(fd, b"..", libc::O_PATH | libc::O_DIRECTORY, 0) {
+                Ok(u) => u,
+                Err(_) => break,
+            };
+            let ust = sys::fstat(up).ok();
+            sys::close(fd);
+            fd = up;
+            if ust.map(|u| (u.st_dev, u.st_ino) == (st.st_dev, st.st_ino)).unwrap_or(true) {
+                break; // reached "/"
+            }
+        }
+        sys::close(fd);
+        inside
+    }
+
+    fn zone_now(&self, rel: &str) -> Zone {
+        if self.under_root_now(rel) {
+            Zone::Inside
+        } else {
+            Zone::Outside
+        }
+    }
+
     /// Apply one attacker mutation. Returns Ok(true) if it took effect.
     /// Label bookkeeping: anything the attacker creates is labelled by the
     /// zone of the directory it is created in; anything moved from outside to
@@ -521,17 +567,17 @@ impl World {
         match m {
             Mutation::Rename { src, dst } => {
                 sys::renameat2(libc::AT_FDCWD, &abs(src), libc::AT_FDCWD, &abs(dst), 0)?;
-                if zone_of_path(dst) == Zone::Inside {
+                if self.zone_now(dst) == Zone::Inside {
                     self.mark_inside_subtree(dst);
                 }
                 Ok(true)
             }
             Mutation::Exchange { a, b } => {
                 sys::renameat2(libc::AT_FDCWD, &abs(a), libc::AT_FDCWD, &abs(b), 2 /*RENAME_EXCHANGE*/)?;
-                if zone_of_path(a) == Zone::Inside {
+                if self.zone_now(a) == Zone::Inside {
                     self.mark_inside_subtree(a);
                 }
-                if zone_of_path(b) == Zone::Inside {
+                if self.zone_now(b) == Zone::Inside {
                     self.mark_inside_subtree(b);
                 }
                 Ok(true)
@@ -567,10 +613,11 @@ impl World {
                 sys::symlinkat(target.as_bytes(), libc::AT_FDCWD, &abs(park))?;
                 // the link is created outside but is about to be inside: it is
                 // the attacker's own object, label it by its destination
-                self.label_path(park, Some(zone_of_path(path)));
+                let z = self.zone_now(path);
+                self.label_path(park, Some(z));
                 match sys::renameat2(libc::AT_FDCWD, &abs(park), libc::AT_FDCWD, &abs(path), 2) {
                     Ok(()) => {
-                        if zone_of_path(path) == Zone::Inside {
+                        if z == Zone::Inside {
                             self.mark_inside_subtree(path);
                         }
                         Ok(true)
@@ -622,16 +669,13 @@ impl World {
     }
 
     fn label_new(&mut self, rel: &str) {
-        // zone = zone of the parent directory's *label* (an inside-lineage
-        // directory parked outside still confers inside lineage)
-        let parent = match rel.rfind('/') {
-            Some(i) => &rel[..i],
-            None => "",
-        };
-        let pz = sys::lstat(&abs(parent))
-            .ok()
-            .and_then(|st| self.labels.get(&(st.st_dev, st.st_ino)).map(|l| l.zone))
-            .unwrap_or_else(|| zone_of_path(rel));
-        self.label_path(rel, Some(pz));
+        // An object the attacker creates is inside iff it is created under the
+        // root *now* (attacker paths are lexical and symlink-free). Creating
+        // something inside a directory that has been moved out of the root
+        // does not make it "reachable from the root at some moment": it was
+        // never inside. (Objects the *library* creates in such a directory
+        // inherit the directory's inside lineage instead - see the supervisor.)
+        let z = self.zone_now(rel);
+        self.label_path(rel, Some(z));
     }
 }
